@@ -19,6 +19,7 @@ mod m_tcp;
 mod m_tls;
 mod m_tot;
 mod m_db;
+mod m_dl;
 mod m_filter;
 
 fn main() {
@@ -44,6 +45,7 @@ fn main() {
         "ana" => m_ana::run(&mut input, &mut out, rest),
         "res" => m_res::run(&mut input, &mut out, rest),
         "tot" => m_tot::run(&mut input, &mut out, rest),
+        "dl" => m_dl::run(&mut input, &mut out, rest),
         m => {
             eprintln!("unknown mode {m}");
             std::process::exit(2);
